@@ -246,6 +246,10 @@ class ReadCd(SCSICommand):
                 r["c2ei"]["data"] = d[:296]
                 d = d[296:]
 
+            if kwargs["scsb"] == 1:
+                r["subchannel"] = {}
+                r["subchannel"]["data"] = d[:96]
+                d = d[96:]
             if kwargs["scsb"] == 2:
                 r["subchannel"] = {}
                 convert.decode_bits(d, cls._sc2_bits, r["subchannel"])
